@@ -111,3 +111,40 @@ def build_extj():
     print('extj pair built')
 if __name__ == '__main__' and len(sys.argv) > 1 and sys.argv[1] == 'extj':
     build_extj()
+
+def build_eashare():
+    """corpus/eashare.img.xz: 128-byte inodes, one xattr block shared by three inodes (h_refcount 3) and one by two; made by pointing i_file_acl of
+    files with identical attributes at one block and letting e2fsck -fy settle reference counts and free the orphaned blocks"""
+    sc = scratch(); env = tool_env()
+    img = os.path.join(sc, 'eashare.img'); root = os.path.join(sc, 'eashare.root')
+    os.makedirs(root + '/d')
+    for n in ('a', 'b', 'c', 'p', 'q', 'solo'):
+        open(os.path.join(root, n), 'wb').write((n * 700).encode())
+    open(root + '/d/x', 'wb').write(b'x' * 5000)
+    os.symlink('a', root + '/l')
+    rc, out = run([tool('mke2fs'), '-q', '-F', '-t', 'ext4', '-O', '^has_journal,metadata_csum,^resize_inode', '-b', '1024', '-g', '256', '-N', '64', '-I', '128', '-U', UUID,
+                   '-E', 'hash_seed=' + SEED, '-d', root, img, '1024'], env=env)
+    assert rc == 0, out
+    big = 'S' * 300
+    cmds = ['ea_set /%s user.shared %s' % (n, big) for n in ('a', 'b', 'c')] + ['ea_set /%s user.two %s' % (n, 'T' * 200) for n in ('p', 'q')] + ['ea_set /solo user.solo %s' % ('U' * 100)]
+    script = os.path.join(sc, 'eashare.dbg'); open(script, 'w').write('\n'.join(cmds) + '\n')
+    rc, out = run([tool('debugfs'), '-w', '-f', script, img], env=env); assert rc == 0, out
+    rc, out = run([tool('debugfs'), '-R', 'stat /a', img], env=env)
+    import re
+    acl_a = re.search(r'File ACL: (\d+)', out).group(1)
+    rc, out = run([tool('debugfs'), '-R', 'stat /p', img], env=env)
+    acl_p = re.search(r'File ACL: (\d+)', out).group(1)
+    open(script, 'w').write('sif /b file_acl %s\nsif /c file_acl %s\nsif /q file_acl %s\n' % (acl_a, acl_a, acl_p))
+    rc, out = run([tool('debugfs'), '-w', '-f', script, img], env=env); assert rc == 0, out
+    rc, out = run([tool('e2fsck'), '-fy', img], env=env); assert rc in (0, 1), out
+    rc, out = run([tool('e2fsck'), '-fn', img], env=env); assert rc == 0, out
+    data = open(img, 'rb').read()
+    from xck.image import Image
+    from xck.check import check as xcheck
+    v = xcheck(data); assert not v, v
+    im = Image(data)
+    print('refcounts:', [(b, int.from_bytes(data[b * 1024 + 4:b * 1024 + 8], 'little')) for b in (int(acl_a), int(acl_p))])
+    open(os.path.join(VERIF, 'corpus', 'eashare.img.xz'), 'wb').write(lzma.compress(data, preset=6))
+    print('eashare built')
+if __name__ == '__main__' and len(sys.argv) > 1 and sys.argv[1] == 'eashare':
+    build_eashare()
